@@ -778,6 +778,7 @@ type FuncReport struct {
 	Abstraction []string
 	Unsupported string
 	Mode        string
+	MissingAnchors []string
 }
 
 func (v *Verifier) verifyFunc(fullKey string, fc *FuncContract) (rep *FuncReport) {
@@ -841,6 +842,7 @@ func (v *Verifier) verifyFunc(fullKey string, fc *FuncContract) (rep *FuncReport
 		e.resultT = append(e.resultT, rs.At(i).Type())
 	}
 	ret := e.run(st)
+	rep.MissingAnchors = e.missingAnchors
 	if ret != nil && fc.PerReturn {
 		for j, r := range e.retStates {
 			e.results = r.vals
